@@ -237,15 +237,29 @@ class EBNF_to_BNF(Transformer_InPlace):
         self.i += 1
         return new_name
 
+    def _cache_key(self, key):
+        # Helper rules inherit the options of the rule that created them, and terminals compare by name only.
+        # So helper rules may only be shared between expressions that agree on which tokens are filtered out.
+        def filter_sig(x):
+            if isinstance(x, Terminal):
+                return x.filter_out
+            if isinstance(x, Tree):
+                return tuple(filter_sig(c) for c in x.children)
+            if isinstance(x, tuple):
+                return tuple(filter_sig(c) for c in x)
+            return None
+        keep_all_tokens = bool(self.rule_options and self.rule_options.keep_all_tokens)
+        return key, keep_all_tokens, filter_sig(key)
+
     def _add_rule(self, key, name, expansions):
         t = NonTerminal(name)
         self.new_rules.append((name, expansions, self.rule_options))
-        self.rules_cache[key] = t
+        self.rules_cache[self._cache_key(key)] = t
         return t
 
     def _add_recurse_rule(self, type_: str, expr: Tree):
         try:
-            return self.rules_cache[expr]
+            return self.rules_cache[self._cache_key(expr)]
         except KeyError:
             new_name = self._name_rule(type_)
             t = NonTerminal(new_name)
@@ -269,7 +283,7 @@ class EBNF_to_BNF(Transformer_InPlace):
         """
         key = (a, b, target, atom)
         try:
-            return self.rules_cache[key]
+            return self.rules_cache[self._cache_key(key)]
         except KeyError:
             new_name = self._name_rule('repeat_a%d_b%d' % (a, b))
             tree = ST('expansions', [ST('expansion', [target] * a + [atom] * b)])
@@ -302,7 +316,7 @@ class EBNF_to_BNF(Transformer_InPlace):
         """
         key = (a, b, target, atom, "opt")
         try:
-            return self.rules_cache[key]
+            return self.rules_cache[self._cache_key(key)]
         except KeyError:
             new_name = self._name_rule('repeat_a%d_b%d_opt' % (a, b))
             tree = ST('expansions', [
